@@ -32,7 +32,7 @@
    Apply returns [ok, st]: ok = FALSE is a failed instruction (Solana rolls the transaction back,
    st = the old state).  The amounts of OUTPUT tokens an execution produces are market arithmetic
    (other specifications); here a successful execution only says esc' = 0 and leaves out/out2 to the
-   trace (`ExecOutputsFree`). *)
+   trace (`OutFree` in ActionLifecycleProps). *)
 EXTENDS Integers, FiniteSets
 
 Actors == {"owner", "keeper", "stranger"}
